@@ -4,6 +4,7 @@ import json
 
 from ..gen import authgen
 from ..ref import auth as ref
+from ..ref import redact as redact_ref
 from ..report import h64
 from ..worker import handle_crash
 
@@ -41,7 +42,7 @@ def layers(tier):
 
 
 def floors(tier):
-    return {"contents": 8000, "comparisons": 150000, "helper_yes": 20000, "helper_no": 20000, "rooms_created_by_actor_or_target": 1000,
+    return {"contents": 8000, "comparisons": 150000, "helper_yes": 20000, "helper_no": 20000, "rooms_created_by_actor_or_target": 1000, "redacted_power_levels": 800,
             "_distinct_nontrivial": 20000}
 
 
@@ -165,6 +166,19 @@ def shard(ctx):
             metas.append((c, ce, how, cases, len(auth_items)))
             for _, _, t in cases:
                 auth_items.append({"version": str(version), "event": t["event"], "state": t["state"]})
+            if how == "int" and k % 4 == 0:
+                # the same room after its power-levels event was redacted: helpers built from the redacted
+                # content type against the authorization rules over the redacted event
+                reds = [x for x in redact_ref.redact_content(c, "m.room.power_levels", version) if not isinstance(x, redact_ref.RedactError)]
+                if reds:
+                    rc = reds[0]
+                    rcases = build_cases(version, rc, creator)
+                    helper_cmds.append({"op": "power_helpers", "content": json.dumps(rc), "redacted": True, "actor": ACTOR, "target": TARGET,
+                                        "message_types": MSG_TYPES, "state_types": STATE_TYPES + ["m.room.third_party_invite"]})
+                    metas.append((rc, rc, "redacted", rcases, len(auth_items)))
+                    for _, _, t in rcases:
+                        auth_items.append({"version": str(version), "event": t["event"], "state": t["state"]})
+                    rep.count("redacted_power_levels")
             if len(helper_cmds) >= 60:
                 run_batch(ctx, w, version, helper_cmds, metas, auth_items)
                 helper_cmds, metas, auth_items = [], [], []
